@@ -1087,5 +1087,40 @@ example : SecBuf.Bound .c32 ((0 + 40) * Spec.entSize .c32 .rela) := by
   simp [SecBuf.Bound, Spec.entSize, wordBytes]
 example : (0x10203#64).toNat < symLimit .c32 := by decide
 
+/-! ### outside the property's domain: an entry size below `sizeof(T)`
+
+`generic_get_entry_*` refuse such a table, `generic_set_entry_*` (and therefore `swap_symbols`) have no
+such guard: the record written at `index * entry_size` reaches past the section's last entry.  Not a C11
+violation (the writer API sets `sizeof(T)`), recorded here because the model reproduces it exactly; it
+belongs to the memory-safety property of table accesses on loaded files (C18). -/
+
+def isOobWrite {α : Type} : M α → Bool
+  | .error (.oobWrite _) => true
+  | _ => false
+
+/-- ELF32 REL table with `sh_entsize = 4`, one 8-byte entry: `set_entry(1, …)` passes the index guard
+    (8/4 = 2 entries) and writes 4 bytes past the 8-byte buffer -/
+theorem set_entry_small_entsize_witness :
+    isOobWrite (do
+      let b ← addRel .lsb { SecBuf.fresh .c32 (BitVec.ofNat 32 SHT_REL) with entSize := 4 } 1 2 3
+      setEntry .lsb b 1 { offset := 1, symbol := 2, type := 3, addend := 0 }) = true := by decide
+
+/-- with `sizeof(T) ≤ entry_size`, `set_entry` is total on every relocation table with the invariant
+    (valid index: `set_entry_frame`; invalid index: `set_invalid`) -/
+theorem set_total (c : Cls) (k : RelKind) (enc : Enc) (b : SecBuf) (hR : RelocSec c k b) (idx : BitVec 64)
+    (e : Entry) : ∃ r, setEntry enc b idx e = .ok r := by
+  by_cases hidx : idx.toNat < b.size.toNat / b.entSize.toNat
+  · obtain ⟨b', h, _⟩ := set_entry_frame c k enc b hR idx hidx e
+    exact ⟨_, h⟩
+  · exact ⟨_, set_invalid enc b idx e (by omega)⟩
+
+/-! more non-vacuity: concrete reachable states meet the hypotheses of the theorems above -/
+example : TableSec .c64 .rel .lsb { SecBuf.fresh .c64 (shtOf .rel) with entSize := 16 } [] :=
+  fresh_reloc .c64 .rel .lsb
+example : ∀ e ∈ [({ offset := 5, symbol := 0xFFFFFFFF, type := 0x80000000, addend := 0 } : Entry)], Fits .c64 e.toSpec :=
+  fun e _ => fits_c64 e
+example : (BitVec.ofNat 64 3).toNat < (BitVec.ofNat 64 96).toNat / (BitVec.ofNat 64 24).toNat := by decide
+example : BitVec.sle (-2147483648#64) (-5#64) = true ∧ BitVec.sle (-5#64) 2147483647#64 = true := by decide
+
 end C11
 end ElfioVerif
